@@ -345,6 +345,41 @@ def spellings(ctx: Ctx, recs: List[Dict[str, Any]]) -> None:
             if got.shape != base.shape or got.dtype != base.dtype or not bool(((got - base).abs() <= tol * (1 + base.abs())).all()):
                 ctx.violation(f"spelling:{name.split('(')[0]}", f"{name}: the value changes with the spelling of the arguments ({label})",
                               {"variant": label, "base": base.flatten().tolist()[:4], "observed": got.flatten().tolist()[:4]})
+    # parameters are public attributes: a criterion whose parameter is reassigned after construction (a sweep re-using one
+    # object) is the criterion of the new parameter
+    Xpos = X.abs() + 1.0
+    sweeps = [("EntropicRiskMeasure", lambda a: nn.EntropicRiskMeasure(a), "a", 1.0, 2.0, X), ("EntropicLoss", lambda a: nn.EntropicLoss(a), "a", 1.0, 0.5, X),
+              ("IsoelasticLoss", lambda a: nn.IsoelasticLoss(a), "a", 0.5, 1.0, Xpos), ("IsoelasticLoss", lambda a: nn.IsoelasticLoss(a), "a", 1.0, 0.25, Xpos),
+              ("ExpectedShortfall", lambda q: nn.ExpectedShortfall(q), "p", 0.5, 0.25, X), ("QuadraticCVaR", lambda l: nn.QuadraticCVaR(l), "lam", 2.0, 4.0, X)]
+    for fam, mk, attr, first, then, Xs in sweeps:
+        try:
+            obj = mk(first)
+            obj(Xs); obj.cash(Xs)                      # used once with the first value
+            setattr(obj, attr, then)
+            got, gotc = obj(Xs), obj.cash(Xs)
+            want, wantc = mk(then)(Xs), mk(then).cash(Xs)
+        except Exception as e:
+            ctx.violation(f"spelling:{fam}:reassigned:raises", f"{fam} raised {type(e).__name__} after its parameter {attr} was reassigned", {"error": repr(e)[:200]})
+            continue
+        ctx.count(n=2)
+        tol = 1e-6 if fam == "QuadraticCVaR" else 1e-12
+        if not bool(((got - want).abs() <= tol * (1 + want.abs())).all()) or not bool(((gotc - wantc).abs() <= max(tol, 1e-9) * (1 + wantc.abs())).all()):
+            ctx.violation(f"spelling:{fam}:reassigned", f"{fam} whose attribute {attr} was changed from {first} to {then} after construction is not the criterion of {attr} = {then}",
+                          {"loss": got.flatten().tolist()[:3], "fresh": want.flatten().tolist()[:3], "cash": gotc.flatten().tolist()[:3], "fresh_cash": wantc.flatten().tolist()[:3]})
+    # relative risk aversion next to (but not equal to) one: the power utility, not its a = 1 limit
+    for a in (1 - 2.0 ** -33, 1 + 2.0 ** -33, 0.9999999999):
+        try:
+            got = nn.IsoelasticLoss(a)(Xpos) if a < 1 else None
+            gotf = F.isoelastic_utility(Xpos, a=a) if a < 1 else None
+        except Exception as e:
+            ctx.violation("spelling:IsoelasticLoss:near-one:raises", f"IsoelasticLoss(a={a!r}) raised {type(e).__name__}", {"error": repr(e)[:200]})
+            continue
+        if got is None:
+            continue
+        want = -(Xpos.pow(1 - a)).mean(0)
+        ctx.count(n=1)
+        if not bool(((got - want).abs() <= 1e-9).all()) or not bool(((gotf - Xpos.pow(1 - a)).abs() <= 1e-9).all()):
+            ctx.violation("spelling:IsoelasticLoss:near-one", f"IsoelasticLoss(a={a!r}) is not minus the mean of x^(1-a) (a is not equal to 1)", {"observed": got.flatten().tolist()[:3], "expected": want.flatten().tolist()[:3]})
     # functional forms: integer parameters, p / a / lam given positionally or by keyword
     try:
         pairs = [("expected_shortfall", F.expected_shortfall(X, 0.5, dim=0), F.expected_shortfall(X, p=0.5, dim=0)),
